@@ -43,7 +43,10 @@ def ledger(ctx, taint, rule, scope=None):
         why = []
         lc = s.kind in ("Overflow:Add", "Overflow:Mul")
         ops_t = [taint.tainted(e, s.fn, why=why, len_clean=lc) for e in s.ops]
-        base = (s.fn, s.kind, "|".join(T.canon_key(e) for e in s.ops))
+        opk = [T.canon_key(e) for e in s.ops]
+        if s.kind in ("Overflow:Add", "Overflow:Mul"):
+            opk = sorted(opk)   # commutative: the key must not depend on operand order
+        base = (s.fn, s.kind, "|".join(opk))
         seen[base] = seen.get(base, 0) + 1
         key = base + ("#%d" % seen[base],)
         if all(is_const(core(e)) for e in s.ops) and s.kind.startswith(("Overflow", "BoundsCheck")):
